@@ -12,7 +12,7 @@ MANIFEST = dict(
 )
 
 RULE = (
-    "W9: every binary tree shape up to N nodes (quick 8, thorough 10) x every node (incl. the root), built from raw "
+    "W9: every binary tree shape up to N nodes (quick 9, thorough 11) x every node (incl. the root), built from raw "
     "BinaryTreeNode and from expression classes; random shapes to 120 nodes; rotations performed by the associative "
     "rule on parsed sums/products at every position.  The monitor on BinaryTreeNode.rotate snapshots the in-order "
     "object sequence and the parent/grandparent links at entry and audits them at exit.  distinct non-trivial = "
@@ -75,7 +75,7 @@ def drive(rec, s, fac):
 def run(rec, cfg):
     MT.attach_rotate("C15")
     fac = factories()
-    nmax = cfg.scale(8, 10)
+    nmax = cfg.scale(9, 11)
     idx = 0
     for s in W9.all_shapes_upto(nmax):
         idx += 1
